@@ -264,6 +264,13 @@ class Churn(System):
                 m.environment.remove_agent(list(m.environment.agents)[0])
 
 
+class Retire(System):
+    """a one-shot set-up system that deregisters itself when it has run"""
+
+    def execute(self):
+        self.clean_up()
+
+
 def agent_collect_window(start: int, end: int, t0: int, d0: int, d1: int, d2: int, d3: int) -> bool:
     """
     pre: -1 <= d0 <= 1 and -1 <= d1 <= 1 and -1 <= d2 <= 1 and -1 <= d3 <= 1
@@ -279,6 +286,11 @@ def agent_collect_window(start: int, end: int, t0: int, d0: int, d1: int, d2: in
     churn = Churn("churn", m)                                     # default priority 0
     churn.start, churn.end = t0, t0 + 1000                       # due at every (arbitrary) timestep of the run
     c = Col.AgentCollector(m, lambda a: 1, includeTimstep=True, frequency=f, start=start, end=end)   # default priority -1
+    if hx.P.get('retire'):
+        # registered first, highest priority, retires itself in the first timestep: the others keep their relative order
+        setup = Retire("setup", m, priority=10)
+        setup.start, setup.end = t0, t0 + 1000
+        m.systems.add_system(setup)
     if hx.P.get('collector_first'):       # the order of registration does not matter: defaults put collectors last
         m.systems.add_system(c)
         m.systems.add_system(churn)
@@ -548,7 +560,7 @@ def obligations(tier):
           timeout=900, encoded=(Col.FileCollector.execute,), bounds={"write_count": "0..2", "failing collections": "any subset of the first five timesteps"}),
         X("agent_collect_window", agent_collect_window,
           parts=[{"f": f, "steps": s} for f, s in (((1, 3), (2, 3)) if tier == "quick" else ((1, 3), (2, 3), (2, 4), (3, 4)))] +
-          [{"f": 1, "steps": 3, "swap_at": 1}, {"f": 1, "steps": 3, "collector_first": True}],
+          [{"f": 1, "steps": 3, "swap_at": 1}, {"f": 1, "steps": 3, "collector_first": True}, {"f": 1, "steps": 3, "retire": True}],
           labels=("some_scheduled",), timeout=1200, encoded=(Col.AgentCollector.collect, Col.Collector.__init__)),
         X("file_conservation", file_conservation, parts=[{"steps": steps, "c01": [a, b]} for a in range(3) for b in range(3)] + [{"steps": 4, "c01": [1, 2], "custom_writer": True}],
           labels=("two_flushes", "never_flushed"),
